@@ -148,6 +148,18 @@ fn inject_json_methods(methods: &mut HashMap<String, MethodInfo>, type_name: &st
     }
 }
 
+/// Inject `clone(self) -> TypeName`: models and classes are always emitted with `#[derive(Clone)]`, and the
+/// reference documents `.clone()` as what `Clone` enables.
+fn inject_clone_method(methods: &mut HashMap<String, MethodInfo>, type_name: &str) {
+    methods.entry("clone".to_string()).or_insert(MethodInfo {
+        receiver: Some(Receiver::Immutable),
+        params: vec![],
+        return_type: ResolvedType::Named(type_name.to_string()),
+        is_async: false,
+        has_body: true,
+    });
+}
+
 /// Inject a `TypeName.new(...) -> Result[TypeName, E]` constructor for `@derive(Validate)` models.
 ///
 /// This is a *typechecker-only* method injection to allow `User.new(...)` calls to typecheck even though the backend
@@ -443,6 +455,7 @@ impl TypeChecker {
         // Inject JSON methods based on derives
         let derives = Self::extract_derive_names(&model.decorators);
         inject_json_methods(&mut methods, &model.name, &derives);
+        inject_clone_method(&mut methods, &model.name);
         let field_order: Vec<Ident> = model.fields.iter().map(|f| f.node.name.clone()).collect();
         inject_validate_methods(&mut methods, &model.name, &fields, &field_order, &derives);
 
@@ -473,6 +486,7 @@ impl TypeChecker {
         // Inject JSON methods based on derives
         let derives = Self::extract_derive_names(&class.decorators);
         inject_json_methods(&mut methods, &class.name, &derives);
+        inject_clone_method(&mut methods, &class.name);
 
         self.symbols.define(Symbol {
             name: class.name.clone(),
